@@ -219,7 +219,7 @@ def path_cost(path, P, pen):
     return cost
 
 
-def path_valid(path, r, c, w, psi, P=None, ms=inf):
+def path_valid(path, r, c, w, psi, P=None, ms=inf, check_end=True):
     """None if `path` is an admissible warping path, else a reason string."""
     if not path:
         return 'empty path'
@@ -237,7 +237,7 @@ def path_valid(path, r, c, w, psi, P=None, ms=inf):
                 return 'illegal step %r -> %r' % ((pi, pj), (i, j))
     if tuple(path[0]) not in starts(r, c, psi):
         return 'start %r not in the relaxed corner' % (tuple(path[0]),)
-    if tuple(path[-1]) not in ends(r, c, psi):
+    if check_end and tuple(path[-1]) not in ends(r, c, psi):
         return 'end %r not in the relaxed corner' % (tuple(path[-1]),)
     return None
 
